@@ -62,7 +62,7 @@ def _matches(st, targets, calls, raises):
     return None
 
 
-def slice_function(relpath, func, targets, params, cls=None, calls=(), raises=False, returns=None, name='sliced', verbose=False, flatten_loops=False, closure=False, closure_exclude=()):
+def slice_function(relpath, func, targets, params, cls=None, calls=(), raises=False, returns=None, name='sliced', verbose=False, flatten_loops=False, closure=True, closure_exclude=None):
     """returns (callable_factory, source_text). callable_factory(globals_dict) -> function(*params)"""
     f = get_function(relpath, func, cls)
     found = set()
@@ -92,6 +92,8 @@ def slice_function(relpath, func, targets, params, cls=None, calls=(), raises=Fa
             elif isinstance(st, ast.Try):
                 out += prune(st.body)
         return out
+    if closure_exclude is None:
+        closure_exclude = tuple(params)
     if closure:
         # backward slice on names: keep every assignment to a name that a kept statement reads (transitively)
         targets = list(targets)
